@@ -576,7 +576,10 @@ Dot11ManagementFrame::country_params::from_option(const option& opt) {
         output.number_channels.push_back(*(ptr++));
         output.max_transmit_power.push_back(*(ptr++));
     }
-    if (ptr != end) {
+    // The element carries one byte of padding when its length would
+    // otherwise be odd (see Dot11ManagementFrame::country)
+    const bool only_padding_left = (end - ptr == 1) && (opt.data_size() % 2 == 0);
+    if (ptr != end && !only_padding_left) {
         throw malformed_option();
     }
     return output; 
